@@ -512,9 +512,12 @@ fn process_tags(
     let mut resolved_later: HashMap<OrderIndex, Option<SvgElement>> = HashMap::new();
     let mut last_failed: Option<OrderIndex> = None;
 
-    // What was known (tags completed here, ids registered / positioned anywhere) when
-    // each deferred tag last failed: retrying it before that has changed cannot end
-    // differently, and doing so anyway repeats the work of every nested list.
+    // What was known (ids registered / positioned anywhere, deferred tags of this list
+    // resolved since) when each deferred tag last failed: retrying it before that has
+    // changed cannot end differently, and doing so anyway repeats the work of every nested
+    // list. (A tag completing at its first attempt is no news to one written before it
+    // beyond the ids it registers - counting it would retry a failed container once for
+    // every enclosing list: work doubling with each nesting level.)
     let mut knowledge_at_failure: HashMap<OrderIndex, usize> = HashMap::new();
     let mut completed = 0usize;
 
@@ -608,7 +611,9 @@ fn process_tags(
                     if !events.is_empty() {
                         idx_output.insert(idx, events);
                     }
-                    completed += 1;
+                    if is_retry {
+                        completed += 1;
+                    }
                     if el.is_some() && !is_retry {
                         last_failed = None;
                     }
